@@ -132,6 +132,9 @@ pub struct StepOut {
     pub published: Option<v2::ProposalJustification>,
     /// error returned by the engine runner, if any
     pub runner_error: Option<String>,
+    /// the replica code panicked during the step (the node is built with panic = abort: the process
+    /// dies; the successor state is the restart from the durable image, `sent` is empty)
+    pub panicked: Option<String>,
 }
 
 // ---------------------------------------------------------------------------------------------
@@ -309,7 +312,8 @@ pub fn step(w: &World, idx: usize, local: &Local, input: &Input, policy: &Policy
         runner_error: Option<String>,
     }
 
-    let res: Res = sched::run(&ch, |idle| async move {
+    let snap_in = local.snap.clone();
+    let res: Result<Res, String> = core::catch(std::panic::AssertUnwindSafe(|| sched::run(&ch, |idle| async move {
         let clock = ctx::ManualClock::new();
         let root = ctx::test_root(&clock);
         let (mgr, runner) = EngineManager::new(&root, Box::new(eng2.clone()), time::Duration::seconds(1)).await.expect("EngineManager::new");
@@ -401,8 +405,16 @@ pub fn step(w: &World, idx: usize, local: &Local, input: &Input, policy: &Policy
         let mut r = out.expect("step scope");
         r.runner_error = runner_error.lock().unwrap().clone();
         r
-    });
-    let crashed = eng.0.crashed.load(SeqCst);
+    })));
+    let mut panicked = None;
+    let res = match res {
+        Ok(r) => r,
+        Err(p) => {
+            panicked = Some(p.clone());
+            Res { snap: snap_in, sent: vec![], outcome: Some(Err(format!("PANIC: {}", p.lines().next().unwrap_or("")))), blocked: false, deadline_expired: false, synced: 0, published: None, runner_error: None }
+        }
+    };
+    let crashed = eng.0.crashed.load(SeqCst) || panicked.is_some();
     let durable = eng.0.state.lock().unwrap().clone();
     let blocks: Vec<v2::FinalBlock> = eng
         .0
@@ -426,6 +438,7 @@ pub fn step(w: &World, idx: usize, local: &Local, input: &Input, policy: &Policy
         synced_blocks: res.synced,
         published: res.published,
         runner_error: res.runner_error.or(eng.0.bad_store_request.lock().unwrap().clone()),
+        panicked,
     };
     if crashed || out.blocked {
         // the process is gone: only the durable image survives
